@@ -8,6 +8,9 @@ package slug
 // A Packer is configured by NewPacker (through the option closures) or by the package-level Pack and never modified afterwards.
 //@ immutable C16.packer-immutable-after-construction: slug.Packer except NewPacker, Pack, Unpack, ApplyTerraformIgnore$1, DereferenceSymlinks$1, AllowSymlinkTarget$1
 
+// where the link's target lies (lexically), and the i-th allow-listed location made absolute
+//@ macro linkTarget(): ite(isAbs(target), Clean(target), Join(Dir(ite(isAbs(path), path, Join(Abs(root), path))), target))
+//@ macro allowAbs(I): ite(isAbs(p.allowSymlinkTargets[I]), p.allowSymlinkTargets[I], Join(Abs(root), p.allowSymlinkTargets[I]))
 //@ func (*Packer).validSymlink -> (ok, err)
 //@   pure
 // deciding about a link never changes the Packer (its options are what the output is a function of); a write to
@@ -18,6 +21,10 @@ package slug
 //@   requires pre.p: p != nil
 //@   ensures C04.lexical.segment: ok && len(p.allowSymlinkTargets) == 0 ==>
 //@       segUnder(ite(isAbs(target), Clean(target), Join(Dir(ite(isAbs(path), path, Join(Abs(root), path))), target)), Abs(root))
+// a target outside the root is accepted only if it is an allow-listed location or lies below one, whole path segments
+// compared: ../shared does not allow ../shared-secrets
+//@   ensures-local C04.allowlist.segment-wise: ok && !segUnder(linkTarget(), Abs(root)) ==>
+//@       0 <= rangeindex && rangeindex < len(p.allowSymlinkTargets) && segUnder(linkTarget(), allowAbs(rangeindex))
 //@   ensures C04,C12.illegal: !ok ==> err != nil
 //@   ensures C12.ok-no-error: ok ==> err == nil
 //@   ensures C12.illegal-typed: !ok ==> dyntype(err, "*slug.IllegalSlugError") || AbsErr(root)
@@ -46,9 +53,11 @@ package slug
 //@   ghost $linked Bool = false
 //@   ghost $restored Bool = false
 //@   ghost $lastMkdir String = ""
+//@   ghost $truncCreated String = ""
+//@   ghost $entryPath String = ""
 //@   ghost $lastChmod String = ""
 //@   invariant loop1 C12.unpack.rejected.inv: !$rejected
-//@   invariant loop1 C15.unpack.entry-handled: (($kind == tar.TypeReg || $kind == tar.TypeRegA) ==> $copied && $restored) && ($kind == tar.TypeSymlink ==> $linked && $restored)
+//@   invariant loop1 C15.unpack.entry-handled: (($kind == tar.TypeReg || $kind == tar.TypeRegA) ==> $copied && $restored && $truncCreated == $entryPath) && ($kind == tar.TypeSymlink ==> $linked && $restored)
 //@       && len(directoriesExtracted) == $ndirs
 //@   at-call append C15,C02.unpack.dir-created: a1.Typeflag == tar.TypeDir && $lastMkdir == a1.Path
 // (clauses name a call site by ordinal only where no state distinguishes the sites: reordering branches must not matter)
